@@ -173,6 +173,21 @@ def make(fam, n, rng):
     if fam == "hadamard_one_qubit":     # H on one qubit, identity elsewhere
         q = int(rng.integers(n))
         return kron_all([H1 if (n - 1 - j) == q else np.eye(2) for j in range(n)])
+    if fam in ("block_degenerate_pi", "block_degenerate_any", "ctrl_degenerate_pi"):
+        # U1 U2^dagger has a doubly (h >= 4: sometimes triply) degenerate eigenvalue in a Haar eigenbasis, the rest distinct:
+        # the eigenvectors numpy returns inside the degenerate eigenspace are not orthogonal (demultiplexing must repair them);
+        # eigenvalue -1 sits on the branch cut of np.angle
+        if h < 2:
+            return None
+        mult = 2 if h < 4 or rng.random() < 0.6 else 3
+        theta = np.pi if fam != "block_degenerate_any" else float(rng.choice([0.0, np.pi / 2, -np.pi / 2, np.pi, rng.uniform(-3, 3)]))
+        phs = [theta] * mult + list(np.linspace(-2.5, 2.5, h - mult) + rng.uniform(-0.1, 0.1))
+        q = haar(rng, h)
+        dq = q @ np.diag(np.exp(1j * np.asarray(phs))) @ q.conj().T
+        if fam == "ctrl_degenerate_pi":
+            return blockdiag(np.eye(h), dq)
+        w = haar(rng, h)
+        return blockdiag(w, dq @ w)
     if fam == "leading_basis_columns":  # first half of the columns are basis vectors (isometry-mode degenerate)
         out = np.zeros((N, N), dtype=complex)
         p = rng.permutation(N)
@@ -188,7 +203,7 @@ FAMILIES = ["haar", "identity", "minus_identity", "phase_identity", "diagonal", 
             "haar_times_phase_real", "qft", "reflection", "repeated_spectrum", "tensor_1_rest", "tensor_rest_1",
             "tensor_all", "tensor_same", "tensor_id_rest", "tensor_rest_id", "block_diagonal", "block_w_minus_w",
             "block_id_w", "block_w_id", "block_antidiagonal", "block_orthogonal", "cs_equal_angles", "cx_chain",
-            "hadamard_one_qubit", "leading_basis_columns", "near_identity", "near_identity_1e-2", "near_tensor",
+            "hadamard_one_qubit", "leading_basis_columns", "block_degenerate_pi", "block_degenerate_any", "ctrl_degenerate_pi", "near_identity", "near_identity_1e-2", "near_tensor",
             "near_cx_chain", "a2_regression"]
 
 CONFIGS = [("qsd", True), ("qsd", False), ("csd", False), ("csd", True)]   # apply_a2 is ignored for csd (both passed)
@@ -300,7 +315,7 @@ def run_matrix(ctx, U, fam, n, with_qr, iso_list=None):
 
 LARGE_FAMILIES = ["haar", "identity", "diagonal_repeated", "phased_permutation", "hadamard", "orthogonal",
                   "repeated_spectrum", "tensor_id_rest", "block_w_minus_w", "cs_equal_angles", "leading_basis_columns",
-                  "near_tensor"]
+                  "near_tensor", "block_degenerate_pi"]
 
 
 def evaluate(ctx, deep):
